@@ -75,7 +75,7 @@ func (r *e2eRig) startCDN(n int) {
 					return
 				}
 				go func() {
-					if r.cdnEdge == "lower" {
+					if r.cdnEdge == "lower" || r.cdnEdge == "connhdr" {
 						// an edge that parses the request and sends it on with lower-case field names (as edges
 						// that carry requests over HTTP/2 internally do); field names are case-insensitive
 						var head []byte
@@ -91,6 +91,14 @@ func (r *e2eRig) startCDN(n int) {
 							lines := strings.Split(string(head[:i]), "\r\n")
 							for li := 1; li < len(lines); li++ {
 								if j := strings.Index(lines[li], ":"); j > 0 {
+									if r.cdnEdge == "connhdr" {
+										// an edge that keeps its origin connections alive and sets the hop-by-hop header itself
+										// (RFC 7230: a case-insensitive list of tokens)
+										if strings.EqualFold(lines[li][:j], "Connection") {
+											lines[li] = "Connection: keep-alive, upgrade"
+										}
+										continue
+									}
 									lines[li] = strings.ToLower(lines[li][:j]) + lines[li][j:]
 								}
 							}
@@ -273,7 +281,11 @@ func hsAgree(cs hsCase) string {
 		redirAddrsM.Lock()
 		sni := append([]string{}, r.cdnSNI...)
 		redirAddrsM.Unlock()
-		if len(sni) == 0 || sni[len(sni)-1] != cs.ServerName {
+		wantSNI := cs.ServerName
+		if net.ParseIP(cs.ServerName) != nil {
+			wantSNI = "" // an IP literal is never sent as a server name (RFC 6066)
+		}
+		if len(sni) == 0 || sni[len(sni)-1] != wantSNI {
 			return fmt.Sprintf("the TLS connection to the CDN carried the server name %q, configured ServerName is %q", sni, cs.ServerName)
 		}
 	}
